@@ -208,6 +208,23 @@ def imagepsf_samples(rep, r, n, lines, exps, metas):
         if bad:
             rep.violation('imagepsf-sample-point', f'ImagePSF at interior sample point {bad[:2]} gives {bad[2]}, expected flux*data = {bad[3]}', replay)
             continue
+        # the whole sample grid as float64 coordinate arrays, evaluated twice on the SAME arrays: same values (= flux * data in the
+        # interior), and the caller's coordinate arrays are left alone
+        gj, gi = np.mgrid[1:ny - 1, 1:nx - 1]
+        gx = np.ascontiguousarray(x0 + (gi - ox) / osx, dtype=np.float64)
+        gy = np.ascontiguousarray(y0 + (gj - oy) / osy, dtype=np.float64)
+        gx0, gy0 = gx.copy(), gy.copy()
+        with warnings.catch_warnings():
+            warnings.simplefilter('ignore')
+            va = np.asarray(m(gx, gy), float)
+            vb = np.asarray(m(gx, gy), float)
+        if not (np.array_equal(gx, gx0) and np.array_equal(gy, gy0)):
+            rep.violation('imagepsf-modifies-coordinates', 'ImagePSF evaluation modified the coordinate arrays it was given', replay)
+            continue
+        if not (np.allclose(va, flux * data[1:ny - 1, 1:nx - 1], rtol=1e-9, atol=1e-9) and np.array_equal(va, vb)):
+            rep.violation('imagepsf-array-evaluation', 'ImagePSF on float64 coordinate arrays: the second evaluation on the same arrays differs from the first / from '
+                          'flux * data', replay)
+            continue
         # outside the array -> fill_value
         for (xo, yo) in [(x0 + (nx - 1 - ox) / osx + 1.0, y0), (x0 + (0 - ox) / osx - 0.75, y0), (x0, y0 + (ny - 1 - oy) / osy + 2.0)]:
             v = float(m(xo, yo))
